@@ -24,6 +24,8 @@ def run(ctx):
     # a batch entry is a call too: every id sequence of length n from the batch's own range (n <= 3 quick, 4 thorough);
     # the batch oracle checks that no entry completes with a response bearing another entry's id
     hs += C.c12_idseq_histories(ctx.rng, nmax=ctx.scale(3, 4))
+    # a batch reply sharing its array with a notification for a full (lagging) subscription
+    hs += C.c12_mixed_array_histories(ctx.rng, nmax=ctx.scale(3, 4))
     C.run_histories(ctx, hs, ["c03", "c12"])
     from props import httpbatch_common as HB
     HB.run_single(ctx)
